@@ -301,3 +301,151 @@ Proof.
   unfold term_forbidden. symmetry. induction (tfacs t) as [|f fs IHf]; simpl; [reflexivity|].
   rewrite <- IHf. unfold forbidden. destruct (obj_name (fst f)); reflexivity.
 Qed.
+
+(* ---------- normal-ordered groups ---------- *)
+Lemma op_qcre_inst M env a : env_ok M env -> op_ov a = true ->
+  qcre M (inst env a) = op_qcre a.
+Proof.
+  intros Hok Hov. pose proof (env_ok_space M env (oidx a) Hok) as Hs.
+  unfold qcre, qann, inst, op_qcre, op_ov in *. simpl fst. simpl snd.
+  destruct (ocre a), (ispace (oidx a)); simpl in *; try discriminate;
+    try (rewrite Hs; reflexivity);
+    apply negb_true_iff in Hs; rewrite Hs; reflexivity.
+Qed.
+
+Lemma filter_map_inst env (f : op -> bool) (g : eop -> bool) l :
+  (forall a, In a l -> g (inst env a) = f a) ->
+  filter g (map (inst env) l) = map (inst env) (filter f l).
+Proof.
+  induction l as [|x r IH]; intros H; simpl; [reflexivity|].
+  rewrite (H x) by (left; reflexivity).
+  rewrite IH by (intros a Ha; apply H; right; exact Ha).
+  destruct (f x); reflexivity.
+Qed.
+
+Lemma flatten_NO_inst M env g : env_ok M env -> forallb op_ov g = true ->
+  normal_order M (map (inst env) g) =
+  (fst (flatten_NO g), map (inst env) (snd (flatten_NO g))).
+Proof.
+  intros Hok Hov. rewrite forallb_forall in Hov.
+  assert (Hq : forall a, In a g -> qcre M (inst env a) = op_qcre a)
+    by (intros a Ha; apply op_qcre_inst; auto).
+  unfold normal_order, flatten_NO. simpl fst. simpl snd. f_equal.
+  - clear Hov. induction g as [|x r IH]; [reflexivity|]. simpl.
+    rewrite IH by (intros a Ha; apply Hq; right; exact Ha).
+    rewrite (Hq x) by (left; reflexivity).
+    rewrite (filter_map_inst env op_qcre (qcre M) r) by (intros a Ha; apply Hq; right; exact Ha).
+    rewrite map_length. reflexivity.
+  - rewrite map_app.
+    rewrite (filter_map_inst env op_qcre (qcre M) g Hq).
+    rewrite (filter_map_inst env (fun o => negb (op_qcre o)) (fun o => negb (qcre M o)) g)
+      by (intros a Ha; rewrite Hq by exact Ha; reflexivity).
+    reflexivity.
+Qed.
+
+Definition inst_group (env : index -> nat) (g : ogroup) : group := (fst g, map (inst env) (snd g)).
+
+Lemma flatten_groups_inst M env gs : env_ok M env -> groups_ok gs = true ->
+  expand_groups M (map (inst_group env) gs) =
+  (fst (flatten_groups gs), map (inst env) (snd (flatten_groups gs))).
+Proof.
+  intros Hok. induction gs as [|[is_no g] r IH]; intros Hg; [reflexivity|].
+  unfold groups_ok in Hg. cbn [forallb fst snd] in Hg.
+  apply andb_true_iff in Hg. destruct Hg as [Hg1 Hg2].
+  cbn [map inst_group fst snd expand_groups flatten_groups].
+  unfold groups_ok in IH. rewrite IH by exact Hg2.
+  destruct (flatten_groups r) as [s l]. cbn [fst snd].
+  destruct is_no.
+  - cbn [negb orb] in Hg1. rewrite (flatten_NO_inst M env g Hok Hg1).
+    destruct (flatten_NO g) as [t g']. cbn [fst snd]. rewrite map_app. reflexivity.
+  - cbn [fst snd]. rewrite map_app. reflexivity.
+Qed.
+
+(* products with normal-ordered groups (occ/virt indices inside the groups):
+   the model's result has the value of the product in which every group has
+   its own (independent) normal-order meaning *)
+Theorem no_flatten_sound M env gs : env_ok M env -> groups_ok gs = true ->
+  wval M env (wicks_groups gs) = gvev M (map (inst_group env) gs).
+Proof.
+  intros Hok Hg. unfold gvev, wicks_groups.
+  rewrite (flatten_groups_inst M env gs Hok Hg).
+  destruct (flatten_groups gs) as [s l]. simpl fst. simpl snd.
+  rewrite <- (wicks_ops_is_vev M env l Hok).
+  unfold wval. rewrite zsum_map, <- zsum_scal. apply zsum_ext. intros [n cs] _.
+  unfold wterm_val. simpl fst. simpl snd. destruct s, n; cbn [xorb zsgn]; ring.
+Qed.
+
+(* a single normal-ordered group has expectation value zero (wicks returns
+   S.Zero for NO objects) *)
+Theorem no_group_vev_zero M env g : env_ok M env -> g <> [] ->
+  gvev M [(true, map (inst env) g)] = 0%Z.
+Proof.
+  intros Hok Hne. unfold gvev. simpl expand_groups.
+  pose proof (vev_normal_ordered M (map (inst env) g)) as H.
+  unfold normal_order in *. simpl snd in H. rewrite app_nil_r.
+  rewrite H; [lia| |].
+  - destruct g; [congruence|discriminate].
+  - intros o Ho. apply in_map_iff in Ho. destruct Ho as (a & <- & _). simpl.
+    apply (env_ok_lt M env _ Hok).
+Qed.
+
+(* sympy's KroneckerDelta evaluates on construction; these evaluations do not
+   change values (used by the harness when it canonicalises results) *)
+Lemma dl_refl x : dl x x = 1%Z.
+Proof. unfold dl. rewrite Nat.eqb_refl. reflexivity. Qed.
+Lemma dl_sym x y : dl x y = dl y x.
+Proof. unfold dl. rewrite Nat.eqb_sym. reflexivity. Qed.
+Lemma dl_idem x y : (dl x y * dl x y)%Z = dl x y.
+Proof. unfold dl. destruct (Nat.eqb x y); reflexivity. Qed.
+Lemma dl_occ_virt M env p q : env_ok M env -> ispace p = Occ -> ispace q = Virt ->
+  dl (env p) (env q) = 0%Z.
+Proof.
+  intros Hok Hp Hq. pose proof (env_ok_space M env p Hok) as H1.
+  pose proof (env_ok_space M env q Hok) as H2. rewrite Hp in H1. rewrite Hq in H2.
+  simpl in H1, H2. unfold dl. destruct (Nat.eqb (env p) (env q)) eqn:E; [|reflexivity].
+  apply Nat.eqb_eq in E. rewrite E in H1. rewrite H1 in H2. discriminate.
+Qed.
+
+(* ---------- with tensor coefficients, summed over contracted indices ---------- *)
+Section WithTensors.
+Variable S : Scalar.
+Definition zK (z : Z) : K S := ofQ S (QArith_base.inject_Z z).
+
+(* sum over all assignments of the indices xs within the range of their space *)
+Fixpoint sum_idx (M : orbmodel) (xs : list index) (env : index -> nat)
+         (F : (index -> nat) -> K S) : K S :=
+  match xs with
+  | [] => F env
+  | x :: r => ksum (orange M (ispace x)) (fun o => sum_idx M r (Expr.upd env x o) F)
+  end.
+
+Lemma env_ok_upd M env x o : env_ok M env -> In o (orange M (ispace x)) ->
+  env_ok M (Expr.upd env x o).
+Proof.
+  intros Hok Ho y. unfold Expr.upd. destruct (index_eqb y x) eqn:E; [|apply Hok].
+  apply index_eqb_eq in E. subst y. exact Ho.
+Qed.
+
+Lemma sum_idx_ext M xs env F G :
+  env_ok M env -> (forall e, env_ok M e -> F e = G e) ->
+  sum_idx M xs env F = sum_idx M xs env G.
+Proof.
+  revert env. induction xs as [|x r IH]; intros env Hok H; simpl; [apply H; exact Hok|].
+  apply ksum_ext. intros o Ho. apply IH; [apply env_ok_upd; assumption|exact H].
+Qed.
+
+(* For every tensor part T (any function of the orbital assignment, i.e. any
+   tensors with any values), every set xs of contracted indices and every
+   assignment of the remaining indices: the model's result, multiplied by the
+   tensors and summed over xs, equals the expectation value of the operator
+   product (normal-ordered groups with their own meaning) multiplied by the
+   tensors and summed over xs. *)
+Theorem wicks_value M env gs (T : (index -> nat) -> K S) xs :
+  env_ok M env -> groups_ok gs = true ->
+  sum_idx M xs env (fun e => kmul S (T e) (zK (wval M e (wicks_groups gs)))) =
+  sum_idx M xs env (fun e => kmul S (T e) (zK (gvev M (map (inst_group e) gs)))).
+Proof.
+  intros Hok Hg. apply sum_idx_ext; [exact Hok|].
+  intros e He. rewrite (no_flatten_sound M e gs He Hg). reflexivity.
+Qed.
+End WithTensors.
